@@ -4,6 +4,10 @@
 package afpacket
 
 import (
+	"io"
+	"sync"
+	"time"
+
 	"github.com/google/gopacket"
 	afp "github.com/google/gopacket/afpacket"
 	"github.com/google/gopacket/layers"
@@ -17,13 +21,22 @@ type Source struct {
 	linkType layers.LinkType
 	// user space copy of the attached BPF filter
 	filter *bpf.VM
+	// mu guards the memory-mapped ring of the handle:
+	// Close must not unmap it while a read is in progress
+	mu     sync.RWMutex
+	closed bool
 }
+
+// pollTimeout bounds the time a read holds the handle,
+// so Close waits no longer than that
+const pollTimeout = 50 * time.Millisecond
 
 // Assert that AfPacketSource conforms to the packet.ReadWriter interface
 var _ packet.ReadWriter = (*Source)(nil)
 
 func NewPacketSource(iface string, vpnMode bool) (*Source, error) {
-	handle, err := afp.NewTPacket(afp.SocketRaw, afp.OptInterface(iface))
+	handle, err := afp.NewTPacket(afp.SocketRaw, afp.OptInterface(iface),
+		afp.OptPollTimeout(pollTimeout))
 	if err != nil {
 		return nil, err
 	}
@@ -65,20 +78,44 @@ func (s *Source) SetBPFFilter(bpfFilter string, maxPacketLength int) error {
 }
 
 func (s *Source) Close() {
+	s.mu.Lock()
+	defer s.mu.Unlock()
+	if s.closed {
+		return
+	}
+	s.closed = true
 	s.handle.Close()
 }
 
+// ReadPacketData returns a copy of the next packet that matches the filter,
+// io.EOF is returned after Close
 func (s *Source) ReadPacketData() ([]byte, *gopacket.CaptureInfo, error) {
 	for {
-		data, ci, err := s.handle.ZeroCopyReadPacketData()
+		data, ci, err := s.readPacketData()
+		if err == afp.ErrTimeout {
+			// nothing received, check that source is not closed and wait again
+			continue
+		}
 		if err == nil && s.filter != nil {
 			// skip packets queued before the filter was attached
 			if n, ferr := s.filter.Run(data); ferr == nil && n == 0 {
 				continue
 			}
 		}
-		return data, &ci, err
+		return data, ci, err
 	}
+}
+
+func (s *Source) readPacketData() ([]byte, *gopacket.CaptureInfo, error) {
+	s.mu.RLock()
+	defer s.mu.RUnlock()
+	if s.closed {
+		return nil, &gopacket.CaptureInfo{}, io.EOF
+	}
+	// the packet is copied out of the ring, the ring can be unmapped
+	// by Close while the packet is still being processed
+	data, ci, err := s.handle.ReadPacketData()
+	return data, &ci, err
 }
 
 func (s *Source) WritePacketData(pkt []byte) error {
